@@ -18,6 +18,12 @@ from . import generalized_time_from_datetime
 from .compiler import enum_values_as_dict
 
 
+def encode_string(data):
+    """StringValue of RFC 3641: a quotation mark in the string is doubled."""
+
+    return u'"{}"'.format(data.replace('"', '""'))
+
+
 class Type(BaseType):
 
     def encode(self, data, _separator, _indent):
@@ -262,7 +268,7 @@ class UTF8String(Type):
         super(UTF8String, self).__init__(name, 'UTF8String')
 
     def encode(self, data, _separator, _indent):
-        return u'"{}"'.format(data)
+        return encode_string(data)
 
 
 class NumericString(Type):
@@ -271,7 +277,7 @@ class NumericString(Type):
         super(NumericString, self).__init__(name, 'NumericString')
 
     def encode(self, data, _separator, _indent):
-        return u'"{}"'.format(data)
+        return encode_string(data)
 
 
 class PrintableString(Type):
@@ -280,7 +286,7 @@ class PrintableString(Type):
         super(PrintableString, self).__init__(name, 'PrintableString')
 
     def encode(self, data, _separator, _indent):
-        return u'"{}"'.format(data)
+        return encode_string(data)
 
 
 class IA5String(Type):
@@ -289,7 +295,7 @@ class IA5String(Type):
         super(IA5String, self).__init__(name, 'IA5String')
 
     def encode(self, data, _separator, _indent):
-        return u'"{}"'.format(data)
+        return encode_string(data)
 
 
 class VisibleString(Type):
@@ -298,7 +304,7 @@ class VisibleString(Type):
         super(VisibleString, self).__init__(name, 'VisibleString')
 
     def encode(self, data, _separator, _indent):
-        return u'"{}"'.format(data)
+        return encode_string(data)
 
 
 class GeneralString(Type):
@@ -307,7 +313,7 @@ class GeneralString(Type):
         super(GeneralString, self).__init__(name, 'GeneralString')
 
     def encode(self, data, _separator, _indent):
-        return u'"{}"'.format(data)
+        return encode_string(data)
 
 
 class BMPString(Type):
@@ -316,7 +322,7 @@ class BMPString(Type):
         super(BMPString, self).__init__(name, 'BMPString')
 
     def encode(self, data, _separator, _indent):
-        return u'"{}"'.format(data)
+        return encode_string(data)
 
 
 class GraphicString(Type):
@@ -325,7 +331,7 @@ class GraphicString(Type):
         super(GraphicString, self).__init__(name, 'GraphicString')
 
     def encode(self, data, _separator, _indent):
-        return u'"{}"'.format(data)
+        return encode_string(data)
 
 
 class UniversalString(Type):
@@ -334,7 +340,7 @@ class UniversalString(Type):
         super(UniversalString, self).__init__(name, 'UniversalString')
 
     def encode(self, data, _separator, _indent):
-        return u'"{}"'.format(data)
+        return encode_string(data)
 
 
 class TeletexString(Type):
@@ -343,7 +349,7 @@ class TeletexString(Type):
         super(TeletexString, self).__init__(name, 'TeletexString')
 
     def encode(self, data, _separator, _indent):
-        return u'"{}"'.format(data)
+        return encode_string(data)
 
 
 class ObjectDescriptor(GraphicString):
